@@ -318,6 +318,27 @@ def main():
         ev_funcs.append(fe)
 
     nontrivial = tot["nontrivial"]
+    # extra solver obligations that involve no code (e.g. the C01 composition query)
+    extra_ev = []
+    for x in cfg.get("extra", []):
+        if tier not in x.get("tiers", ["quick", "thorough"]):
+            continue
+        tx = time.time()
+        try:
+            rx = subprocess.run(x["cmd"], shell=True, capture_output=True, text=True, cwd=V, timeout=x.get("timeout_s", 600))
+            outx = (rx.stdout + rx.stderr).strip()
+        except subprocess.TimeoutExpired:
+            outx = "timeout"
+        okx = bool(re.search(r"->\s*%s\b" % x["expect"], outx))
+        oblig += 1
+        discharged += 1 if okx else 0
+        extra_ev.append({"name": x["name"], "cmd": x["cmd"], "expect": x["expect"], "output": outx[-300:], "ok": okx, "wall_s": round(time.time() - tx, 2)})
+        if not okx:
+            if x.get("violation_if_fails"):
+                violations += 1
+                lines.append("VIOLATION property=%s replay=%s func=%s label=%s" % (pid, os.path.join(V, x["cmd"].split()[1]), x["name"], "extra-obligation-failed"))
+            else:
+                warn.append("WARN extra obligation %s: expected %s, got: %s" % (x["name"], x["expect"], outx[-200:]))
     for w in warn:
         print(w)
     for l in lines:
@@ -334,7 +355,7 @@ def main():
             "checker_cmd": "python3 /verif/check.py %s --tier %s" % (pid, tier),
             "solver": sh(["z3", "--version"]).stdout.strip(),
             "functions_encoded": sorted(executed), "stubs_and_summaries_hit": sorted(stubs),
-            "harnesses": ev_funcs, "samples": samples or [{"note": "no completed sample path"}],
+            "harnesses": ev_funcs, "extra_obligations": extra_ev, "samples": samples or [{"note": "no completed sample path"}],
             "known_findings_matched": sorted(set(known_hit)), "warnings": warn,
             "outside_claim": cfg.get("outside", []),
             "exhaustive": False,
